@@ -2052,11 +2052,13 @@ package connect
 //@   ensures err == nil ==> seq(res) == seq(callres("(*protoJSONCodec).Marshal", 1, 0))
 
 //@ func (*connectWireError).UnmarshalJSON(e, data) err
-//@   tags C02, C06
+//@   tags C02, C05, C06
 //@   requires e != nil
 //@   nosafety truncation
 //@   assigns e.code, e.err, e.details
 //@   ensures err == nil && wire.Code == "" ==> e.code == old(e.code) && e.err == old(e.err)   // label: an-empty-code-leaves-the-error-untouched
+//@   ensures err != nil && callres("(*protoJSONCodec).Unmarshal", 1) != nil ==> called("json.Unmarshal", 1) && (callres("json.Unmarshal", 1) != nil || called("(*Code).UnmarshalText", 1))   // label: an-error-whose-details-cannot-be-parsed-is-given-up-on-only-if-its-code-and-message-cannot-be-read-either   // tags: C02, C05, C06
+//@   assert@call(json.Unmarshal#1): seq(arg0) == seq(data)   // label: the-fallback-reads-the-same-bytes
 //@   ensures err == nil && wire.Code != "" ==> (forall k int :: {codeText(k)} 0 <= k && k <= 4294967295 && wire.Code == codeText(k) ==> e.code == k)   // label: the-code's-text-parses-back-to-the-code
 //@   ensures err == nil && wire.Code != "" && wire.Message != "" ==> e.err != nil && errText(e.err) == wire.Message   // label: message-is-kept-byte-for-byte
 //@   ensures err == nil && wire.Code != "" && wire.Message == "" ==> e.err == old(e.err)
